@@ -5,6 +5,8 @@ import (
 	"encoding/binary"
 	"fmt"
 	"net"
+	"runtime"
+	"sync"
 	"time"
 
 	"github.com/pion/turn/v5/internal/zzverif/ref"
@@ -620,6 +622,11 @@ func (x *TExec) opTCPData(st *TStep) {
 	if tc == nil || !tc.bound || tc.gone {
 		return
 	}
+	if st.Side == "both" {
+		x.opTCPDuplex(tc, st)
+
+		return
+	}
 	data := synth(max(st.N, 1), st.Seed, "")
 	from, to := tc.dataEnd, tc.peerEnd
 	if st.Side == "peer" {
@@ -651,6 +658,45 @@ func (x *TExec) opTCPData(st *TStep) {
 		}
 	}
 	x.St.inc("tcp:data-" + map[bool]string{true: "peer-to-client", false: "client-to-peer"}[st.Side == "peer"])
+}
+
+// opTCPDuplex: both ends of a bound pair write at the same time, chunk after chunk, without
+// waiting for each other - the two copy directions are busy simultaneously.
+func (x *TExec) opTCPDuplex(tc *tConn, st *TStep) {
+	n := min(max(st.N, 1), 24000)
+	up, down := synth(n, st.Seed, ""), synth(n, st.Seed^0x5a5a5a, "")
+	cuts := max(st.Cuts, 1) * 8
+	chunk := (n + cuts - 1) / cuts
+	var wg sync.WaitGroup
+	write := func(end *sim.Conn, data []byte) {
+		defer wg.Done()
+		for off := 0; off < len(data); off += chunk {
+			if _, err := end.Write(data[off:min(off+chunk, len(data))]); err != nil {
+				return
+			}
+			runtime.Gosched()
+		}
+	}
+	wg.Add(2)
+	go write(tc.dataEnd, up)
+	go write(tc.peerEnd, down)
+	wg.Wait()
+	x.settle()
+	gotP, _ := tc.peerEnd.ReadAvailable()
+	gotC, _ := tc.dataEnd.ReadAvailable()
+	tc.toPeer, tc.gotPeer = append(tc.toPeer, up...), append(tc.gotPeer, gotP...)
+	tc.toClient, tc.gotClient = append(tc.toClient, down...), append(tc.gotClient, gotC...)
+	if !bytes.Equal(tc.toPeer, tc.gotPeer) {
+		x.fail([]string{"C16"}, "stream-corrupted", "both directions busy, client->peer: %d bytes written, %d bytes arrived (first difference at %d)", len(tc.toPeer), len(tc.gotPeer), firstDiff(tc.toPeer, tc.gotPeer))
+
+		return
+	}
+	if !bytes.Equal(tc.toClient, tc.gotClient) {
+		x.fail([]string{"C16"}, "stream-corrupted", "both directions busy, peer->client: %d bytes written, %d bytes arrived (first difference at %d)", len(tc.toClient), len(tc.gotClient), firstDiff(tc.toClient, tc.gotClient))
+
+		return
+	}
+	x.St.inc("tcp:data-both-directions-at-once")
 }
 
 func (x *TExec) opTCPClose(st *TStep) {
